@@ -447,4 +447,30 @@ CHECKS = {
             {"name": "TestC18Concurrent", "quick": 96, "thorough": 3200, "shards": {"quick": 8, "thorough": 16}},
         ],
     },
+    "C20": {
+        "rule": "schemas from the full type space (every atomic type as key/value, all min/max classes, enums of every atomic type on scalar, optional and "
+                "set columns with hostile enum strings such as '802.1q', 'a b', quotes and backslashes, references, constraints) plus naming "
+                "stress (columns and tables needing initialism / camel-case / underscore handling). TestC20 (in-process, hundreds per run): the "
+                "library generator formats every table and the db model twice (byte-identical), output parses, TYPE-CHECKS with go/types against "
+                "the real model and ovsdb packages (source importer), and for every column the tagged struct field has, after resolving aliases, "
+                "exactly the type string of ovsdb.NativeType(column); with extended generation and enum types independently on/off. "
+                "TestC20Compiled (batches of 4-10 packages): the real cmd/modelgen binary built from /repo generates each package twice into two "
+                "directories (byte-identical), with -extended on/off; the scratch module is vetted, compiled and tested: model.NewDatabaseModel("
+                "Schema(), FullDatabaseModel()) must validate, and for 40 reflectively filled values per table the generated CloneModel / "
+                "CloneModelInto / EqualsModel must agree with the generic laws (clone equal, no shared slice/map/pointer, Equal == field-wise "
+                "DeepEqual on pairs, false after any single-field change, argument untouched). Non-trivial = schema with >=1 enum and >=1 "
+                "collection/optional column (in-process) / every compiled package; distinct = hash of (column type signature, options).",
+        "assumptions": COMMON_ASSUMPTIONS + [
+            "two enum strings that collapse to one Go identifier are not generated together",
+            "packages generated without -extended clone through JSON: tables with real/boolean map keys are skipped for the clone laws there (known finding clone-nonjson-map-key)",
+            "enum types off exists only in the library API and is covered by the in-process tier",
+        ],
+        "level_text": "exploration: generated schemas x generator options, type-checked in process and compiled/tested in batches with law checks on the generated methods",
+        "level_note": "trusts go/types (source importer) and the go tool; a failing batch is attributed to its package and schema from the tool output",
+        "technique": "property-based testing (rapid): generate-compile-run pipeline with type-level and behavioural oracles",
+        "tests": [
+            {"name": "TestC20", "quick": 320, "thorough": 24000, "shards": {"quick": 4, "thorough": 16}},
+            {"name": "TestC20Compiled", "quick": 4, "thorough": 160, "shards": {"quick": 2, "thorough": 16}},
+        ],
+    },
 }
